@@ -18,6 +18,11 @@
                                                                                      → ok | bad-perm | bad-order
     M <pt> <asc> <ct> <casc> <vals> <cvals>
                                 the model's own Sorting/SortingAnyList (sort := merge sort)  → <perm>
+    X <t> <ops>                 history over a pool of 4 lists and 3 caller-held slices (aliasing check)
+         ops: N:<j>:<init>  a:<j>:<v>  A:<j>:<k> (AddAllArray(slice k))  B:<j>:<k> (AddAll(list k))
+              s:<j>:<i>:<v>  g:<j>:<i>  T:<j>:<k> (slice k = ToArray())  R:<k>:<list> (slice k = literal)
+              w:<k>:<i>:<v> (slice k[i] = v)  F:<dst>:<src>:<idx list>  Z:<j> (Sorting result overwritten)
+         answer per op: <u|p|v..>#<list0>|<list1>|<list2>|<list3>|<slice0>|<slice1>|<slice2>
     K <ops>                     history on a LinkedList
          ops: af:<v> al:<v> ad:<v> rf rl rm:<k> pb:<k>:<v> cl t n gf gl
          answer: u | p | v<val> | nil | n<k> | t<list>
@@ -26,6 +31,7 @@ import Golib.Lists.Run
 import Golib.Lists.Wire
 import Golib.Lists.Sort
 import Golib.Lists.Linked
+import Golib.Lists.Multi
 import Driver.Common
 
 open Drv Lists
@@ -133,6 +139,54 @@ def listOfVals (t : String) (vs : List V) : TL V :=
   | some l => l
   | none => TL.mk' (zeroOf t) 0
 
+/-! ### multi-object histories -/
+
+def parseX (t : String) (s : String) : Option (Multi.MOp V) :=
+  match s.splitOn ":" with
+  | ["N", j, "nil"] => (parseNat j).map (fun j => .newList j none)
+  | ["N", j, "cap", n] => match parseNat j, parseNat n with
+    | some j, some n => some (.newList j (some n))
+    | _, _ => none
+  | ["a", j, v] => match parseNat j, parseV t v with
+    | some j, some v => some (.add j v)
+    | _, _ => none
+  | ["A", j, k] => match parseNat j, parseNat k with
+    | some j, some k => some (.addAllArray j k)
+    | _, _ => none
+  | ["B", j, k] => match parseNat j, parseNat k with
+    | some j, some k => some (.addAll j k)
+    | _, _ => none
+  | ["s", j, i, v] => match parseNat j, parseInt i, parseV t v with
+    | some j, some i, some v => some (.set j i v)
+    | _, _, _ => none
+  | ["g", j, i] => match parseNat j, parseInt i with
+    | some j, some i => some (.get j i)
+    | _, _ => none
+  | ["T", j, k] => match parseNat j, parseNat k with
+    | some j, some k => some (.toArray j k)
+    | _, _ => none
+  | ["R", k, vs] => match parseNat k, parseVs t vs with
+    | some k, some vs => some (.arr k vs)
+    | _, _ => none
+  | ["w", k, i, v] => match parseNat k, parseNat i, parseV t v with
+    | some k, some i, some v => some (.arrSet k i v)
+    | _, _, _ => none
+  | ["F", d, sr, idx] => match parseNat d, parseNat sr, parseList parseInt idx with
+    | some d, some sr, some idx => some (.filtering d sr idx)
+    | _, _, _ => none
+  | ["Z", j] => (parseNat j).map .sortScribble
+  | _ => none
+
+def snapshot (st : Multi.MState V) : String :=
+  "|".intercalate (((List.range 4).map (fun i => listOf showV (TL.toArray (st.lists i)))) ++
+    ((List.range 3).map (fun k => listOf showV (st.arrs k))))
+
+def runX (t : String) : List (Multi.MOp V) → Multi.MState V → List String → List String
+  | [], _, acc => acc.reverse
+  | op :: ops, st, acc =>
+    let r := Multi.step Growth.go (zeroOf t) op st
+    runX t ops r.2 ((showOut r.1 ++ "#" ++ snapshot r.2) :: acc)
+
 /-! ### sorting -/
 
 def parseBool (s : String) : Option Bool :=
@@ -218,6 +272,10 @@ def answer (line : String) : String :=
         (if ct == "-" then Sort.sorting msort (leOf pt) asc v vs.length
          else Sort.sortingAnyList msort (leOf pt) asc v (leOf ct) c casc vs.length)
     | _, _, _, _ => "bad-op"
+  | ["X", t, ops] =>
+    match isType t, (if ops == "-" then some [] else (ops.splitOn ";").mapM (parseX t)) with
+    | true, some ops => semi (runX t ops Multi.MState.init [])
+    | _, _ => "bad-op"
   | ["K", ops] =>
     match (if ops == "-" then some [] else (ops.splitOn ";").mapM parseK) with
     | some ops => semi ((Linked.LL.runTR ops Linked.LL.empty []).1.map showK)
